@@ -199,7 +199,7 @@ PROPS = {
         title='for/everyg (surface form `for x in &coll { body }`)',
         props_module="PvModel.Props.C12",
         rule='programs with `for e in &coll { body }` over collections of 0-3 literals / lists / outer query variables, bodies of 1-2 goals using the loop variable and outer variables, optionally after another goal; emitted as Rust SOURCE inside proto_vulcan!, compiled against the current tree; oracle: the explicit conjunction (reverse collection order) built through the runtime API, answer sequences equal; the reference program goes through the model; non-trivial = >=2 answers or a non-ground answer; distinct = distinct case lines',
-        trusted=SEARCH_TRUST + ["syn parsing of the surface syntax is not modelled: the theorems start at the AST; the harness PRINTS ASTs to Rust source, so a parser slip surfaces as a compile error or a disagreement", "compound (struct) patterns, project and fngoal clauses are not generated"],
+        trusted=SEARCH_TRUST + ["syn parsing of the surface syntax is not modelled: the theorems start at the AST; the harness PRINTS ASTs to Rust source, so a parser slip surfaces as a compile error or a disagreement", "project and fngoal clauses are not generated; compound constructors / patterns are generated where the macro grammar accepts them (operands of == / !=, whole match patterns; arguments: variables, `_`, literals, proper lists)"],
         assumptions=["the reference elaboration (surf.rs) is the documented meaning: names resolved lexically, one new variable per binder / distinct pattern name / `_`"],
         open=['bodies with relation calls / committed choice (outside the conj/conde/fresh bodies of C12_order_irrelevant): equality with the forward conjunction is checked on the real engine via the reference program'],
         macro=True,
@@ -208,16 +208,16 @@ PROPS = {
         title='pattern matching (match/matche/matcha/matchu)',
         props_module="PvModel.Props.C13",
         rule="programs with one match expression (1-3 arms, `|` alternatives, empty / single / bracketed / braced bodies, repeated names, wildcards, literals, nested proper/improper list patterns, pattern names that shadow the matched term's variable and outer variables), optionally after another goal, all four operators; emitted as Rust source, compiled, run; oracle: the reference elaboration (conde/conda/condu of fresh pattern variables, term == pattern, body) built through the runtime API, answer sequences equal; non-trivial/distinct as C12",
-        trusted=SEARCH_TRUST + ["syn parsing of the surface syntax is not modelled: the theorems start at the AST; the harness PRINTS ASTs to Rust source, so a parser slip surfaces as a compile error or a disagreement", "compound (struct) patterns, project and fngoal clauses are not generated"],
+        trusted=SEARCH_TRUST + ["syn parsing of the surface syntax is not modelled: the theorems start at the AST; the harness PRINTS ASTs to Rust source, so a parser slip surfaces as a compile error or a disagreement", "project and fngoal clauses are not generated; compound constructors / patterns are generated where the macro grammar accepts them (operands of == / !=, whole match patterns; arguments: variables, `_`, literals, proper lists)"],
         assumptions=["the reference elaboration (surf.rs) is the documented meaning: names resolved lexically, one new variable per binder / distinct pattern name / `_`"],
-        open=['compound (struct) patterns are not generated'],
+        open=['compound patterns nested inside list patterns or other compounds, and tuple patterns, are outside the macro grammar / not generated'],
         macro=True,
     ),
     "C14": dict(
         title='surface syntax -> goals and terms',
         props_module="PvModel.Props.C14",
         rule='random surface programs over the clause grammar (==, !=, true/false, [..], conde/conda/condu/onceo, |x| {..} with shadowing, closure { }, relation calls) and the term grammar (numbers, bools, chars, strings, variables, `_`, [], nested proper/improper lists); emitted as Rust source, compiled, run; oracle: reference elaboration through the runtime API (answer sequences, reported per query variable in declaration order); non-trivial/distinct as C12',
-        trusted=SEARCH_TRUST + ["syn parsing of the surface syntax is not modelled: the theorems start at the AST; the harness PRINTS ASTs to Rust source, so a parser slip surfaces as a compile error or a disagreement", "compound (struct) patterns, project and fngoal clauses are not generated"],
+        trusted=SEARCH_TRUST + ["syn parsing of the surface syntax is not modelled: the theorems start at the AST; the harness PRINTS ASTs to Rust source, so a parser slip surfaces as a compile error or a disagreement", "project and fngoal clauses are not generated; compound constructors / patterns are generated where the macro grammar accepts them (operands of == / !=, whole match patterns; arguments: variables, `_`, literals, proper lists)"],
         assumptions=["the reference elaboration (surf.rs) is the documented meaning: names resolved lexically, one new variable per binder / distinct pattern name / `_`"],
         open=["`closure { a, b }` with several comma-separated clauses does not parse (the macro's separator type is wrong); closure bodies are generated as one clause — noted in DESIGN.md, outside the property's claim about answers"],
         macro=True,
@@ -226,7 +226,7 @@ PROPS = {
         title='fresh variables: distinct and renaming-invariant',
         props_module="PvModel.Props.C15",
         rule='surface programs with binders (fresh with shadowing, pattern arms, for) each run as written AND with one bound variable consistently renamed to an unused name (both as source, both compiled); oracle: identical answer sequences of the pair, and each equals its reference elaboration; recursive relation calls (member, append) draw fresh variables per unfolding; non-trivial/distinct as C12',
-        trusted=SEARCH_TRUST + ["syn parsing of the surface syntax is not modelled: the theorems start at the AST; the harness PRINTS ASTs to Rust source, so a parser slip surfaces as a compile error or a disagreement", "compound (struct) patterns, project and fngoal clauses are not generated"],
+        trusted=SEARCH_TRUST + ["syn parsing of the surface syntax is not modelled: the theorems start at the AST; the harness PRINTS ASTs to Rust source, so a parser slip surfaces as a compile error or a disagreement", "project and fngoal clauses are not generated; compound constructors / patterns are generated where the macro grammar accepts them (operands of == / !=, whole match patterns; arguments: variables, `_`, literals, proper lists)"],
         assumptions=["the reference elaboration (surf.rs) is the documented meaning: names resolved lexically, one new variable per binder / distinct pattern name / `_`"],
         open=['the global AtomicUsize counter itself is trusted (fetch_add)'],
         macro=True,
